@@ -41,7 +41,8 @@ let glob (pat : string) (s : string) : bool =
 let clause_match (c : string) (s : string) : bool = List.exists (fun alt -> glob alt s) (String.split_on_char ',' c)
 let clause_keys (c : string) : string list option =
   if String.contains c '*' || String.contains c '?' then None
-  else Some (List.filter (fun x -> x <> "") (String.split_on_char ',' c))
+  else if String.contains c ',' then Some (List.filter (fun x -> x <> "") (String.split_on_char ',' c))   (* IsPatternListOfUniqueValues: empty segments are skipped *)
+  else Some [c]                                                                                            (* IsPatternUnique (also the empty clause) *)
 
 type fspec = FG of int | FL of int | FE of int | FX
 let fspec_of_string (s : string) : fspec =
@@ -65,9 +66,11 @@ let ops : matchOps = {
 let split c s = String.split_on_char c s
 let clauses_of (s : string) : Obj.t list = List.map (fun x -> Obj.repr x) (split '/' s)
 let spath_of (s : string) : spath =
-  if String.length s > 0 && s.[0] = '/' then Abs (clauses_of (String.sub s 1 (String.length s - 1))) else Rel (clauses_of s)
+  if s = "/" then Abs []
+  else if String.length s > 0 && s.[0] = '/' then Abs (clauses_of (String.sub s 1 (String.length s - 1))) else Rel (clauses_of s)
 let relpat_of (s : string) : Obj.t list =
-  if String.length s > 0 && s.[0] = '/' then clauses_of (String.sub s 1 (String.length s - 1)) else clauses_of s
+  if s = "/" then []
+  else if String.length s > 0 && s.[0] = '/' then clauses_of (String.sub s 1 (String.length s - 1)) else clauses_of s
 let split_sub (s : string) : string * Obj.t option =
   match String.index_opt s '@' with
   | None -> (s, None)
@@ -124,7 +127,8 @@ let () =
     | Some bar ->
       Hashtbl.reset tbl; Hashtbl.reset rev_tbl;
       let body = String.sub line (bar+1) (String.length line - bar - 1) in
-      let net_mode = bar > 0 && line.[0] = 'x' in   (* print the net effect of an op's Messages instead of the Messages *)
+      let net_mode = bar > 0 && line.[0] = 'x' in    (* print the net effect of an op's Messages instead of the Messages *)
+      let malformed = bar > 0 && line.[0] = 'z' in   (* paths with empty clauses: the mirror statement is not evaluated *)
       let opl = List.filter (fun s -> s <> "") (split ';' body) in
       let w = ref (empty_world ops) in
       let nsess = ref 0 in
@@ -204,7 +208,7 @@ let () =
         Buffer.add_string b "}";
         Printf.printf "%d %s\n" k (Buffer.contents b);
         (* the statement of C04 evaluated on the model's own state *)
-        if not !quiet_used then
+        if not !quiet_used && not malformed then
           List.iter (fun c ->
             let id = int_of_n c.c_id in
             if not (Hashtbl.mem tainted id) then
